@@ -39,6 +39,7 @@ type attCtl struct {
 	idx   int
 	reply *ref.Frame
 	ev    Ev
+	over  bool // the reply's body exceeds what a frame can carry (decoded leniently)
 }
 
 func checkAttReplies(r *Result, prop string, ci int) ([]attCtl, *Violation) {
@@ -65,7 +66,12 @@ func checkAttReplies(r *Result, prop string, ci int) ([]attCtl, *Violation) {
 	for k, e := range reps {
 		f, err := ref.Decode(e.Raw)
 		if err != nil {
-			return ctl, mk("undecodable_reply", fmt.Sprintf("conn %d: reply %d does not decode: %x", ci, k, []byte(e.Raw)), e.Step)
+			of, ok := ref.DecodeOversized(e.Raw)
+			if !ok {
+				return ctl, mk("undecodable_reply", fmt.Sprintf("conn %d: reply %d does not decode: %x", ci, k, []byte(e.Raw)), e.Step)
+			}
+			f = of
+			ctl[k].over = true
 		}
 		u := ctl[k].unit
 		ctl[k].reply = &f
